@@ -231,12 +231,26 @@ def run(ctx, rep):
     # add_ring_bond attaches a_stereo to the bond whose source is a
     arb = ctx.fn("selfies.mol_graph.MolecularGraph.add_ring_bond")
     ctor = [c for c in own_nodes(arb.node) if isinstance(c, ast.Call) and isinstance(c.func, ast.Name) and c.func.id == "DirectedBond"]
-    ok = len(ctor) == 2 and {tuple(unparse(x) for x in c.args[:4:1])[0::1][:1] + (unparse(c.args[3]),) for c in ctor} == {("a", "a_stereo"), ("b", "b_stereo")}
+    init = ctx.db.funcs.get("selfies.mol_graph.DirectedBond.__init__")
+    fields = [p_ for p_ in (init.posparams if init is not None else []) if p_ != "self"]
+
+    def bound(c):
+        d = {}
+        for i_, a_ in enumerate(c.args):
+            if i_ < len(fields):
+                d[fields[i_]] = unparse(a_)
+        for k_ in c.keywords:
+            if k_.arg:
+                d[k_.arg] = unparse(k_.value)
+        return d
+    bs = [bound(c) for c in ctor]
+    # roles of the constructor's fields: the first is the source, the mark field is the one that receives the *_stereo parameters
+    ok = len(ctor) == 2 and len(fields) >= 4 and {(b_.get(fields[0]), b_.get("stereo", b_.get(fields[3]))) for b_ in bs} == {("a", "a_stereo"), ("b", "b_stereo")}
     rep.ob("S2", ok, arb.node, arb, construct="add_ring_bond mark attachment", how="DirectedBond(a, b, .., a_stereo) and DirectedBond(b, a, .., b_stereo)",
            witness=None if ok else "a mark is attached to the directed bond of the other end", key="graph-attachment", nontrivial=True)
     # ---- S3: both directions of a ring bond carry one order (so 'order == 1' of the first covers both)
-    orders = {unparse(c.args[2]) for c in ctor} if ctor else set()
-    rep.ob("S3", len(orders) == 1, arb.node, arb, construct="ring bond order in both directions", how="one order expression",
+    orders = {b_.get("order", b_.get(fields[2]) if len(fields) > 2 else None) for b_ in bs} if ctor else set()
+    rep.ob("S3", len(orders) == 1 and None not in orders, arb.node, arb, construct="ring bond order in both directions", how="one order expression",
            witness=None if len(orders) == 1 else "the two directions of a ring bond can have different orders", key="same-order")
     rep.floor("S1", 3)
     rep.floor("S2", 10)
